@@ -34,6 +34,9 @@ BLOCKS = [['Some paragraph text.', 'It continues here.'], ['One line.'], [':para
           ['.. code::', '', '   function(f)', '   endfunction()'], [':param x1: has name like a parameter']]
 
 
+PROBES = ['Some paragraph text.', 'One line.', 'Héllo ✓ wörld.', 'A nested note', 'item one', 'definition body']
+
+
 def parse(text):
     st = docutils.frontend.get_default_settings(docutils.parsers.rst.Parser); st.report_level = 5; st.halt_level = 5
     doc = docutils.utils.new_document('<page>', settings=st)
@@ -120,6 +123,24 @@ def check_page(rst, spec, mod='M'):
     for (n, a, gch), (_, _, wch) in zip(got, want):
         if not nested_ok(gch, wch):
             return dict(kind='entry content not nested as predicted', entry=(n, a), expected=wch, real=gch)
+    # nothing but the entries' directives at the top level: text, fields or lists there would be content outside any entry
+    stray = [c.tagname for c in secs[0].children
+             if not isinstance(c, (docutils.nodes.title, docutils.nodes.container, docutils.nodes.comment, docutils.nodes.system_message))]
+    if stray:
+        return dict(kind='content outside every entry directive', nodes=stray[:6])
+    # every entry's documentation text sits inside its own directive
+    tops = [c for c in secs[0].children if isinstance(c, docutils.nodes.container) and c.get('dname')]
+    ents = list(spec)
+    if not any(e['t'] == 'module' for e in ents): ents.insert(0, dict(t='module', name=mod, doc=''))
+    for node, e in zip(tops, ents):
+        text = node.astext()
+        for probe in PROBES:
+            if probe in (e.get('doc') or '') and probe not in text:
+                return dict(kind="an entry's documentation text is not inside its directive", entry=e.get('name'), missing=probe)
+            subs = [m for k in ('ctors', 'members') for m in e.get(k, [])] + list(e.get('attrs', []))
+            for m in subs:
+                if probe in (m.get('doc') or '') and probe not in text:
+                    return dict(kind="a member's documentation text is not inside its class directive", entry=e.get('name'), member=m.get('name'), missing=probe)
     return None
 
 
